@@ -85,6 +85,14 @@ theorem file_write_confined {ovl : Bytes → Nat → Nat → Nat → Bytes} {s :
     fs'.seeds = fs.seeds ∧ AgreeOutside fs.target fs'.target offset (offset + length) :=
   FSeg.writeInto_confined hst hoff hlen hbs hpos hd h
 
+/-- after the size check nothing makes `fileSeedSegment.WriteInto` fail: a refused clone (e.g.
+    overlapping ranges when the seed is the target itself) falls back to a plain copy -/
+theorem file_write_fails_only_on_size {ovl : Bytes → Nat → Nat → Nat → Bytes} {s : FSeg} {fs : FS}
+    {offset length bs : Nat}
+    (hst : Small s.srcStart) (hoff : Small offset) (hlen : Small length) (hbs : Small bs) (hpos : 0 < bs) :
+    s.writeInto ovl fs offset length bs = .err ↔ u length ≠ u s.size :=
+  FSeg.writeInto_err_iff_wrong_size ovl s fs hst hoff hlen hbs hpos
+
 /-- the same for `nullChunkSection.WriteInto` (skip, zero fill, or block-wise clone of the zero block) -/
 theorem null_write_confined {fs fs' : FS} {sfrom sto : Nat} {canReflink : Bool}
     {offset length bs : Nat} {isBlank : Bool} {c cl : Nat} {fz : Bool}
@@ -158,13 +166,14 @@ theorem complete_skip {cf : Cfg} {e : Env} {blob : Bytes} {seeds : List Seed}
     ∃ r, assemble cf e seeds files prior = some r ∧ r.fs.target = blob :=
   assemble_complete_skip hwf hst hnull hb hsm hct hstatic hact
 
-/-- regenerate: success whatever the seeds hold, also for a seed that is the target itself as long
-    as it is not cloned from (see DESIGN section 12, finding F-C01-alias) -/
+/-- regenerate: success whatever the seeds hold, also for a seed that is the target itself, with or
+    without block cloning: a clone the file system refuses (overlapping ranges of one file) is
+    followed by a plain copy (see DESIGN section 12, finding F-C01-alias) -/
 theorem complete_regenerate {cf : Cfg} {e : Env} {blob : Bytes} {seeds : List Seed}
     {files : List Bytes} {prior : Option Bytes} (hwf : WFSeq cf e blob) (hst : StoreComplete cf e blob)
     (hnull : NullIsZeros cf e) (hb : cf.isBlank = isBlankOf prior) (hsm : SeedsSmall seeds)
     (hct : SeedsContiguous seeds)
-    (hsrc : ∀ s ∈ seeds, s.Static files ∨ (s.src = .target ∧ s.canReflink = false))
+    (hsrc : ∀ s ∈ seeds, s.Static files ∨ s.src = .target)
     (hact : cf.act = .regenerate)
     (hre : RechunkOK cf.H cf.rechunk) (hrs : RechunkSmall cf.rechunk) (hrc : RechunkContig cf.rechunk) :
     ∃ r, assemble cf e seeds files prior = some r ∧ r.fs.target = blob :=
